@@ -325,8 +325,12 @@ func (e *absEval) eval(v ssa.Value, path *absPath, depth int) absVal {
 		// error constructors never return nil
 		if o := ssaCalleeObj(x); o != nil {
 			switch objPkgPath(o) + "." + o.Name() {
-			case "fmt.Errorf", "errors.New":
+			case "fmt.Errorf", "errors.New", modPath + "/builder.NewError":
 				return aNonNil
+			}
+			// (*builder.Error).Lift returns its receiver
+			if o.Name() == "Lift" && objPkgPath(o) == modPath+"/builder" && len(x.Call.Args) > 0 {
+				return e.eval(x.Call.Args[0], path, depth+1)
 			}
 		}
 		return e.evalCall(x, 0, path, depth)
@@ -599,6 +603,12 @@ func (e *absEval) helperRelevant(fn *ssa.Function, depth int) bool {
 			}
 			if e.sc.marksState != nil {
 				if _, ok := e.sc.marksState(in, map[string]absVal{}); ok {
+					rel = true
+				}
+			}
+			// the helper evaluates one of the scenario's atoms
+			if v, isVal := in.(ssa.Value); isVal && e.sc.assume != nil {
+				if _, ok := e.sc.assume(v, func(ssa.Value) absVal { return aUnknown }); ok {
 					rel = true
 				}
 			}
